@@ -310,6 +310,115 @@ pub fn run(s: &mut Src, ctx: &mut Ctx) -> Verdict {
     Verdict::Pass
 }
 
+/// Several execute calls on ONE engine and ONE fact store, with activation groups and with rules whose
+/// action fails (execute returns Err in the middle of a pass). "Every call to execute ..." — the clauses that
+/// need no model of the error semantics are judged on every call: it returns, cycle_count <= max_cycles,
+/// rules_fired = callbacks, and when it stopped before the bound no rule that is still eligible is true on
+/// the final facts (in a pass that fired nothing every enabled rule was evaluated, whatever happened before).
+pub fn run_reuse(s: &mut Src, ctx: &mut Ctx) -> Verdict {
+    let mut c = gen_case(s);
+    let n = c.rules.len();
+    let groups: Vec<Option<usize>> = (0..n).map(|_| if s.chance(1, 2) { Some(s.below(2)) } else { None }).collect();
+    // one rule may carry an assignment that cannot be evaluated (reads a field that does not exist)
+    let failing = if s.chance(2, 3) { Some(s.below(n)) } else { None };
+    if let Some(i) = failing {
+        let pos = s.below(c.rules[i].actions.len() + 1);
+        c.rules[i].actions.insert(pos, Assign { target: "A.tmp".into(), rhs: Term::Arith(Arith { first: Operand::Field("Z.missing".into()), rest: vec![('+', Operand::Lit(V::Int(1)))] }) });
+    }
+    let ncalls = 2 + s.below(2);
+    let tweaks: Vec<(usize, i64)> = (0..ncalls).map(|_| (s.below(INTS.len() + 1), s.range(0, 5))).collect();
+    c.max_cycles = c.max_cycles.max(1);
+    if probe_only() {
+        return Verdict::Pass;
+    }
+    ctx.describe(|| format!("max_cycles={} activation groups {:?} calls={} tweaks before each call {:?}\n{}", c.max_cycles, groups, ncalls, tweaks, describe(&c.rules, &c.store)));
+    let kb = rust_rule_engine::KnowledgeBase::new("kb");
+    for (r, g) in c.rules.iter().zip(groups.iter()) {
+        let mut rule = rule_to_engine(r);
+        if let Some(g) = g {
+            rule = rule.with_activation_group(format!("g{}", g));
+        }
+        if kb.add_rule(rule).is_err() {
+            return Verdict::fail("add-rule-error", "");
+        }
+    }
+    let mut engine = rust_rule_engine::RustRuleEngine::with_config(kb, rust_rule_engine::EngineConfig { max_cycles: c.max_cycles, timeout: None, enable_stats: false, debug_mode: false });
+    let facts = c.store.to_facts();
+    let mut ever_fired: Vec<String> = Vec::new();
+    let mut errs = 0;
+    let mut judged_fixpoints = 0;
+    let mut fixpoint_after_err = false;
+    for call in 0..ncalls {
+        let (k, v) = tweaks[call];
+        if k < INTS.len() {
+            let _ = facts.set_nested(INTS[k], rust_rule_engine::Value::Integer(v));
+        }
+        let mut cb: Vec<String> = Vec::new();
+        let use_cb = call % 2 == 0;
+        let res = catch(|| if use_cb { engine.execute_with_callback(&facts, |n, _| cb.push(n.to_string())) } else { engine.execute(&facts) });
+        let res = match res {
+            Ok(r) => r,
+            Err(p) => return Verdict::fail(format!("panic@{}", p.split(": ").next().unwrap_or("?")), p),
+        };
+        match res {
+            Err(_) => {
+                errs += 1;
+                // fired no-loop rules of this call are unknown without the callback list being complete; be conservative
+                ever_fired.extend(cb);
+                if !use_cb {
+                    // unknown which rules fired before the error: every no-loop rule may have
+                    ever_fired.extend(c.rules.iter().filter(|r| r.no_loop).map(|r| r.name.clone()));
+                }
+            }
+            Ok(r) => {
+                if r.cycle_count > c.max_cycles {
+                    return Verdict::fail("cycle-count-exceeds-bound", format!("call {}: cycle_count={} > max_cycles={}", call, r.cycle_count, c.max_cycles));
+                }
+                if use_cb && r.rules_fired != cb.len() {
+                    return Verdict::fail("rules-fired-vs-callbacks", format!("call {}: rules_fired={} callbacks={}", call, r.rules_fired, cb.len()));
+                }
+                if use_cb {
+                    ever_fired.extend(cb);
+                } else if r.rules_fired > 0 {
+                    ever_fired.extend(c.rules.iter().filter(|r| r.no_loop).map(|r| r.name.clone()));
+                }
+                if r.cycle_count < c.max_cycles {
+                    // stopped before the bound: fixpoint on the engine's own final facts
+                    let st = store_from_engine(&facts);
+                    for rule in &c.rules {
+                        if rule.no_loop && ever_fired.contains(&rule.name) {
+                            continue;
+                        }
+                        if eval_cond(&rule.cond, &st) == T3::True {
+                            return Verdict::fail(
+                                "not-a-fixpoint:reused-engine",
+                                format!("call {} on a reused engine stopped after {} of {} cycles (fired {}) but rule {} is still true on the final facts ({} earlier calls returned Err)", call, r.cycle_count, c.max_cycles, r.rules_fired, rule.name, errs),
+                            );
+                        }
+                    }
+                    judged_fixpoints += 1;
+                    if errs > 0 {
+                        fixpoint_after_err = true;
+                    }
+                }
+            }
+        }
+    }
+    if errs > 0 {
+        ctx.label("some-call-returned-Err");
+    }
+    if fixpoint_after_err {
+        ctx.label("fixpoint-judged-after-an-Err-call");
+    }
+    if groups.iter().any(|g| g.is_some()) {
+        ctx.label("has-activation-groups");
+    }
+    if judged_fixpoints > 0 && (errs > 0 || groups.iter().filter(|g| g.is_some()).count() >= 2) {
+        ctx.nontrivial(hash_of(&(hash_rules(&c.rules, &c.store), c.max_cycles, format!("{:?}{:?}", groups, tweaks))));
+    }
+    Verdict::Pass
+}
+
 pub fn run_api(s: &mut Src, ctx: &mut Ctx) -> Verdict {
     VIA_PARSER.with(|v| v.set(false));
     let r = run(s, ctx);
@@ -321,10 +430,11 @@ pub fn property() -> Property {
     Property {
         id: "C03",
         level: "exploration",
-        rule: "generated: 1-6 rules biased to loops (bounded counters, always-true increments, flag toggles that re-enable each other, chains, random typed-core rules over the same int/flag fields), each no-loop with probability 1/4, distinct saliences, x stores of 3 objects x max_cycles in 0..=64 (mass on 0..3, 1, 64), timeout None; loaded through GRLParser (part parser) or as identical Rule values (part api). Oracle: returns (monitor watchdog 120 s); cycle_count <= max_cycles; rules_fired = callbacks; REF multi-pass interpreter with no-loop: exact firing sequence, store after every firing, number of passes, final store; when stopped before the bound, REF re-evaluates every still-eligible rule on the engine's own final facts (fixpoint). Non-trivial: reaches the bound while still firing, or >= 3 passes, or max_cycles in {0,1} with a rule whose condition is true; distinct by (program, store, max_cycles).",
+        rule: "generated: 1-6 rules biased to loops (bounded counters, always-true increments, flag toggles that re-enable each other, chains, random typed-core rules over the same int/flag fields), each no-loop with probability 1/4, distinct saliences, x stores of 3 objects x max_cycles in 0..=64 (mass on 0..3, 1, 64), timeout None; loaded through GRLParser (part parser) or as identical Rule values (part api). Oracle: returns (monitor watchdog 120 s); cycle_count <= max_cycles; rules_fired = callbacks; REF multi-pass interpreter with no-loop: exact firing sequence, store after every firing, number of passes, final store; when stopped before the bound, REF re-evaluates every still-eligible rule on the engine's own final facts (fixpoint). Part `reuse`: 2-3 execute calls (alternating execute_with_callback / execute) on ONE engine and fact store, rules with activation groups and possibly one rule whose action fails (execute returns Err mid-pass), a fact tweaked before each call; judged per call: returns, cycle_count <= max_cycles, rules_fired = callbacks, and fixpoint on the final facts whenever the call stopped before the bound. Non-trivial: reaches the bound while still firing, or >= 3 passes, or max_cycles in {0,1} with a rule whose condition is true; distinct by (program, store, max_cycles).",
         assumptions: vec!["REF (typed.rs) is the trusted reference".into(), "termination judged by the 120 s watchdog of the monitor process".into()],
         parts: vec![
             Part { name: "parser", run, quick: Budget::Random { cases: 6_000, bytes: 400 }, thorough: Budget::Random { cases: 200_000, bytes: 400 }, min_nontrivial_pct: 30 },
+            Part { name: "reuse", run: run_reuse, quick: Budget::Random { cases: 40_000, bytes: 450 }, thorough: Budget::Random { cases: 1_500_000, bytes: 450 }, min_nontrivial_pct: 5 },
             Part { name: "api", run: run_api, quick: Budget::Random { cases: 60_000, bytes: 400 }, thorough: Budget::Random { cases: 2_000_000, bytes: 400 }, min_nontrivial_pct: 30 },
         ],
         watchdog: true,
